@@ -73,6 +73,10 @@ func (s *Session) WriteMessage(req *pool.Message) error {
 	if s.ctx.Err() != nil {
 		return net.ErrClosed
 	}
+	// like the real sessions (WriteWithContext): a message whose own context has ended is not written
+	if err := req.Context().Err(); err != nil {
+		return err
+	}
 	d, err := req.MarshalWithEncoder(udpcoder.DefaultCoder)
 	if err != nil {
 		return err
